@@ -43,7 +43,7 @@ T_Begin ==
   /\ LET e == Trace[l]  n == Len(e.stmts) IN
      cs' = [id |-> e.id, stmts |-> e.stmts, i |-> 1, k |-> 0, sym |-> EmptyFn, equ |-> EmptyFn,
             locB |-> [j \in 1..n |-> 0], psz |-> [j \in 1..n |-> 0], bitsS |-> [j \in 1..n |-> 16],
-            ocB |-> [j \in 1..n |-> 0], ocA |-> [j \in 1..n |-> 0], dg |-> {},
+            ocB |-> [j \in 1..n |-> 0], ocA |-> [j \in 1..n |-> 0], dg |-> {}, dgp1 |-> {},
             sb |-> [j \in 1..n |-> << >>], soff |-> [j \in 1..n |-> -1], cgbits |-> [j \in 1..n |-> 0],
             org |-> 0, bits |-> 16, seen |-> 0, judged |-> 0, unjudged |-> 0, nt |-> e.nt]
   /\ l' = l + 1 /\ UNCHANGED <<res, refs>>
@@ -108,6 +108,7 @@ T_P1 ==
                          !.locB[i] = e.locB, !.psz[i] = e.locA - e.locB, !.bitsS[i] = cs.bits,
                          !.ocB[i] = e.ocB, !.ocA[i] = e.ocA,
                          !.dg = IF DiagBad(e.diag) THEN @ \cup {i} ELSE @,
+                         !.dgp1 = IF DiagBad(e.diag) THEN @ \cup {i} ELSE @,
                          !.org = IF cs.stmts[i].k = "org" THEN e.dolA ELSE @,
                          !.bits = IF cs.stmts[i].k = "bits" THEN cs.stmts[i].v ELSE @]
   /\ l' = l + 1 /\ UNCHANGED <<res, refs>>
@@ -180,7 +181,9 @@ T_CG ==
          bad == e.err # "" \/ DiagBad(e.diag)
          last == e.k + 1 = cs.ocA[i]
          dg2 == IF bad THEN cs.dg \cup {i} ELSE cs.dg
-         judge == last /\ i \notin dg2
+         \* a diagnosed statement is outside C01-C04/C06 (their statements say so).  C05 has no such clause: a diagnostic
+         \* raised only by code generation does not excuse wrong data bytes that were nevertheless put into the image
+         judge == last /\ (i \notin dg2 \/ (i \notin cs.dgp1 /\ nb # << >> /\ cs.stmts[i].k \in {"data", "resb", "alignb"}))
      IN
      /\ IF judge THEN Report(JudgeStmt(cs, i, nb, off, e.bits)) ELSE TRUE
      /\ cs' = [cs EXCEPT !.k = e.k + 1, !.sb[i] = nb, !.soff[i] = off, !.cgbits[i] = e.bits, !.dg = dg2,
